@@ -151,6 +151,55 @@ pub fn exec(rec: &Value, _st: &mut State) -> Value {
             json!({"v0": m0.vertices().iter().map(|p| qp3(&mut q, p)).collect::<Vec<_>>(), "v1": m1.vertices().iter().map(|p| qp3(&mut q, p)).collect::<Vec<_>>(),
                    "f0": m0.faces(), "f1": m1.faces(), "c0": c0, "c1": c1, "finite": q.finite})
         }
+        ("meshopt", _) => {
+            // the optional `transform` argument of the tolerance queries, and deviations, against moving query and mesh by hand
+            let t = iso3(tv);
+            let verts: Vec<Point3> = gvvi(rec, "vpos").iter().map(|x| p3(x)).collect();
+            let faces: Vec<[u32; 3]> = gvvi(rec, "faces").iter().map(|f| [f[0] as u32, f[1] as u32, f[2] as u32]).collect();
+            let uvp: Vec<Point2> = gvvi(rec, "uv").iter().map(|x| p2(x)).collect();
+            let uv = engeom::geom3::UvMapping::new(uvp, faces.clone()).expect("uv");
+            let m0 = Mesh::new_with_uv(verts, faces, false, Some(uv));
+            let mut m1 = m0.clone();
+            m1.transform(&t);
+            let md = gi(rec, "md16") as f64 / 16.0;
+            let ang = gi(rec, "ang16") as f64 / 16.0;
+            let qs: Vec<Point3> = gvvi(rec, "qs").iter().map(|x| p3(x) * 0.5).collect();
+            let tinv = t.inverse();
+            let qb: Vec<Point3> = qs.iter().map(|x| tinv * x).collect();     // the queries expressed in the other frame
+            let qm: Vec<Point3> = qs.iter().map(|x| t * x).collect();        // the queries moved along with the mesh
+            let uvd = |q: &mut Q, r: Option<(Point2, f64)>| match r { None => json!({"some": false, "uv": [0,0,0], "depth": 0}), Some((u, d)) => json!({"some": true, "uv": qp2(q, &u), "depth": q.q(d, QS)}) };
+            let prj = |q: &mut Q, r: Option<(parry3d_f64::query::PointProjection, u32, parry3d_f64::shape::TrianglePointLocation)>| match r { None => json!({"some": false, "p": [0,0,0], "id": 0}), Some((pp, id, _)) => json!({"some": true, "p": qp3(q, &pp.point), "id": id}) };
+            let dv = |q: &mut Q, m: &Mesh, p: &Point3| { let a = m.measure_point_deviation(p, engeom::common::DistMode::ToPoint); let b = m.measure_point_deviation(p, engeom::common::DistMode::ToPlane); json!({"pt": q.q(a.value(), QS), "pl": q.q(b.value(), QS), "a": qp3(q, &a.a), "b": qp3(q, &a.b)}) };
+            let mut rows = vec![];
+            for j in 0..qs.len() {
+                rows.push(json!({
+                    "u0": uvd(&mut q, m0.uv_with_tol(&qs[j], md, ang, None)),
+                    "u1": uvd(&mut q, m0.uv_with_tol(&qb[j], md, ang, Some(&t))),
+                    "u2": uvd(&mut q, m1.uv_with_tol(&qm[j], md, ang, None)),
+                    "p0": prj(&mut q, m0.project_with_tol(&qs[j], md, ang, None)),
+                    "p1": prj(&mut q, m0.project_with_tol(&qb[j], md, ang, Some(&t))),
+                    "p2": prj(&mut q, m1.project_with_tol(&qm[j], md, ang, None)),
+                    "d0": dv(&mut q, &m0, &qs[j]), "d2": dv(&mut q, &m1, &qm[j]),
+                }));
+            }
+            let i0 = m0.indices_in_tol(&qs, md, ang, None);
+            let i1 = m0.indices_in_tol(&qb, md, ang, Some(&t));
+            let i2 = m1.indices_in_tol(&qm, md, ang, None);
+            json!({"rows": rows, "i0": i0, "i1": i1, "i2": i2, "finite": q.finite})
+        }
+        ("ccw", _) => {
+            // a counter-clockwise outline built from moved points is the moved outline
+            let t = iso2(tv);
+            let pts: Vec<Point2> = gvvi(rec, "pts").iter().map(|x| p2(x)).collect();
+            let moved: Vec<Point2> = pts.iter().map(|p| t * p).collect();
+            let fc = gb(rec, "fc");
+            let desc = |q: &mut Q, c: &engeom::Result<Curve2>| match c { Err(_) => json!({"ok": false, "verts": [], "closed": false}), Ok(c) => json!({"ok": true, "verts": c.points().iter().map(|p| qp2(q, p)).collect::<Vec<_>>(), "closed": c.is_closed()}) };
+            let c0 = Curve2::from_points_ccw(&pts, 1e-6, fc);
+            let c1 = Curve2::from_points_ccw(&moved, 1e-6, fc);
+            let g0 = engeom::common::points::transform_points(&pts, &t);
+            json!({"e0": desc(&mut q, &c0), "e1": desc(&mut q, &c1), "g0": g0.iter().map(|p| qp2(&mut q, p)).collect::<Vec<_>>(),
+                   "in": pts.iter().map(|p| qp2(&mut q, p)).collect::<Vec<_>>(), "finite": q.finite})
+        }
         ("cloud", _) => {
             let t = iso3(tv);
             let pts: Vec<Point3> = gvvi(rec, "pts").iter().map(|x| p3(x)).collect();
